@@ -142,9 +142,11 @@ structure Fixes where
   syncTaint : Bool
   /-- F-nocache-rerun: a no-cache dependency already produced in this build is not re-run -/
   rerunOnce : Bool
+  /-- minimal mode accepts a hit only if the stored result describes the declared outputs -/
+  minValidate : Bool
 deriving DecidableEq
 
-def Fixes.current : Fixes := ⟨true, true, true⟩
+def Fixes.current : Fixes := ⟨true, true, true, true⟩
 
 structure Params (κ : Type) where
   K : KeyState κ → κ
@@ -300,7 +302,9 @@ def tryHit (P : Params κ) (cfg : Cfg) (t : Target) (k : κ) (s : BState κ) : O
     if !s.cache.taint t.label && !t.noCache && cfg.enableCache
         && (checksPass s.fs t.checks || !P.fx.gateChecks) then
       if cfg.minimal then
-        some { s with st := upd s.st t.label (some { ok := true, key := some k, oh := some r.oh, loaded := false }) }
+        if validate t r || !P.fx.minValidate then
+          some { s with st := upd s.st t.label (some { ok := true, key := some k, oh := some r.oh, loaded := false }) }
+        else none
       else
         match restore t r s.cache s.fs with
         | some fs' => some { s with fs := fs',
